@@ -348,6 +348,11 @@ func importing(g gor) bool {
 		return true
 	}
 	if strings.Contains(g.text, "fetcher.(*Fetcher).insert.func") {
+		// an import that has finished and only reports completion to the fetcher loop (for ever, if
+		// that loop belongs to a manager that was stopped meanwhile) is not running any more
+		if strings.HasPrefix(g.state, "chan send") && strings.Contains(g.text, "insert.func1.1") {
+			return false
+		}
 		return true
 	}
 	if strings.Contains(g.text, "(*ProtocolManager).BroadcastMomentum") {
